@@ -69,6 +69,15 @@ func constStringsWritten(p *core.Prog, fn *ssa.Function, seen map[*ssa.Function]
 		callee := call.Call.StaticCallee()
 		if callee != nil && core.PkgPathOf(callee) == core.PkgPathOf(fn) {
 			constStringsWritten(p, callee, seen, out)
+			// a constant handed to a helper of the printer that writes (e.g. the keyword
+			// argument of a shared "date keyword rest" helper)
+			var sub []string
+			constStringsWritten(p, callee, map[*ssa.Function]bool{}, &sub)
+			if len(sub) > 0 || writesToWriter(callee) {
+				for _, a := range call.Call.Args {
+					*out = append(*out, constParts(a, 0)...)
+				}
+			}
 		}
 		if callee == nil || callee.Pkg == nil {
 			return
@@ -76,12 +85,42 @@ func constStringsWritten(p *core.Prog, fn *ssa.Function, seen map[*ssa.Function]
 		switch callee.Pkg.Pkg.Path() + "." + callee.Name() {
 		case "fmt.Fprintf", "io.WriteString", "fmt.Fprint", "fmt.Fprintln":
 			for _, a := range call.Call.Args {
-				if s, ok := core.ConstString(a); ok {
+				for _, s := range constParts(a, 0) {
 					*out = append(*out, s)
 				}
 			}
 		}
 	})
+}
+
+// writesToWriter: fn calls io.WriteString / fmt.Fprint* itself.
+func writesToWriter(fn *ssa.Function) bool {
+	res := false
+	core.EachInstr(fn, func(ins ssa.Instruction) {
+		if call, ok := ins.(*ssa.Call); ok {
+			if callee := call.Call.StaticCallee(); callee != nil && callee.Pkg != nil {
+				switch callee.Pkg.Pkg.Path() + "." + callee.Name() {
+				case "fmt.Fprintf", "io.WriteString", "fmt.Fprint", "fmt.Fprintln":
+					res = true
+				}
+			}
+		}
+	})
+	return res
+}
+
+// constParts: the string constants an argument is made of — the constant
+// itself, or the constant operands of a concatenation.
+func constParts(v ssa.Value, depth int) []string {
+	if s, ok := core.ConstString(v); ok {
+		return []string{s}
+	}
+	if bo, ok := v.(*ssa.BinOp); ok && bo.Op == token.ADD && depth < 12 {
+		if b, ok := bo.Type().Underlying().(*types.Basic); ok && b.Info()&types.IsString != 0 {
+			return append(constParts(bo.X, depth+1), constParts(bo.Y, depth+1)...)
+		}
+	}
+	return nil
 }
 
 var keywordRe = regexp.MustCompile(`@?[a-z]{3,}`)
@@ -352,9 +391,7 @@ func RuleFPresence(c *core.Ctx) {
 					constStringsWritten(p, callee, map[*ssa.Function]bool{}, &strs)
 				}
 				for _, a := range call.Call.Args {
-					if s, ok := core.ConstString(a); ok {
-						strs = append(strs, s)
-					}
+					strs = append(strs, constParts(a, 0)...)
 				}
 			}
 			for _, s := range strs {
@@ -882,23 +919,49 @@ func RuleFDirectiveTypes(c *core.Ctx) {
 		c.Anchor(rule, "parser.parseDirective / model.ParseDirective / printers / Builder.Add")
 		return
 	}
-	produced := func(fn *ssa.Function, pkgPrefix string) map[string]bool {
+	produced := func(root *ssa.Function, pkgPrefix string) map[string]bool {
 		res := map[string]bool{}
-		core.EachInstr(fn, func(ins ssa.Instruction) {
-			mi, ok := ins.(*ssa.MakeInterface)
-			if !ok {
-				return
+		// the function and the helpers of its own package it calls (generic
+		// helpers are analysed per instantiation), three levels deep
+		fns := map[*ssa.Function]bool{root: true}
+		frontier := []*ssa.Function{root}
+		for depth := 0; depth < 3; depth++ {
+			var next []*ssa.Function
+			for _, f := range frontier {
+				core.EachInstr(f, func(ins ssa.Instruction) {
+					call, ok := ins.(ssa.CallInstruction)
+					if !ok {
+						return
+					}
+					callee := call.Common().StaticCallee()
+					if callee == nil || callee.Blocks == nil || fns[callee] || core.PkgPathOf(callee) != core.PkgPathOf(root) {
+						return
+					}
+					fns[callee] = true
+					next = append(next, callee)
+				})
 			}
-			t := mi.X.Type()
-			if pt, ok := t.(*types.Pointer); ok {
-				t = pt.Elem()
-			}
-			if n, ok := types.Unalias(t).(*types.Named); ok && n.Obj().Pkg() != nil && strings.HasPrefix(n.Obj().Pkg().Path(), pkgPrefix) {
-				if _, isErr := n.Underlying().(*types.Struct); isErr && n.Obj().Name() != "Error" {
-					res[n.Obj().Name()] = true
+			frontier = next
+		}
+		var each func(fn *ssa.Function, f func(ssa.Instruction))
+		each = func(fn *ssa.Function, f func(ssa.Instruction)) { core.EachInstr(fn, f) }
+		for fn := range fns {
+			each(fn, func(ins ssa.Instruction) {
+				mi, ok := ins.(*ssa.MakeInterface)
+				if !ok {
+					return
 				}
-			}
-		})
+				t := mi.X.Type()
+				if pt, ok := t.(*types.Pointer); ok {
+					t = pt.Elem()
+				}
+				if n, ok := types.Unalias(t).(*types.Named); ok && n.Obj().Pkg() != nil && strings.HasPrefix(n.Obj().Pkg().Path(), pkgPrefix) {
+					if _, isErr := n.Underlying().(*types.Struct); isErr && n.Obj().Name() != "Error" {
+						res[n.Obj().Name()] = true
+					}
+				}
+			})
+		}
 		return res
 	}
 	switched := func(fn *ssa.Function) map[string]bool {
